@@ -354,8 +354,11 @@ func genPrettyEnc(g *G, tier string, emit func(string)) {
 	genLengths(emit)
 	// strings with every byte value at the start, in the middle and at the end (the printer's escape classes and the
 	// runs of ordinary text between them), as values and as keys
-	for b := 0; b < 256; b++ {
+	for b := 0; b < 258; b++ {
 		h := fmt.Sprintf("%02x", b)
+		if b >= 256 {
+			h = []string{"e280a8", "e280a9"}[b-256] // U+2028 / U+2029: escaped unconditionally
+		}
 		for _, str := range []string{h, "61" + h, h + "62", "6161" + h + "6262" + h} {
 			emit("s" + str)
 			emit("{1 s" + str + " s" + str + " }")
